@@ -81,21 +81,110 @@ func maxBig(a, b *big.Int) *big.Int {
 	return b
 }
 
+// ---- canonical linear forms: an Int term is an atom or  c0 + Σ coef_i·atom_i  (OpLin) ----
+
+type linT struct {
+	c0    *big.Int
+	atoms []*Term // sorted by id, no OpLin / constants among them
+	coefs []*big.Int
+}
+
+func (s *TermStore) toLin(t *Term) *linT {
+	if t.op == OpLin {
+		return t.lin
+	}
+	if t.IsConst() {
+		return &linT{c0: t.bk}
+	}
+	return &linT{c0: bigZero, atoms: []*Term{t}, coefs: []*big.Int{bigOne}}
+}
+
+func linAdd(a, b *linT, kb *big.Int) *linT {
+	r := &linT{c0: new(big.Int).Add(a.c0, new(big.Int).Mul(kb, b.c0))}
+	i, j := 0, 0
+	for i < len(a.atoms) || j < len(b.atoms) {
+		switch {
+		case j >= len(b.atoms) || (i < len(a.atoms) && a.atoms[i].id < b.atoms[j].id):
+			r.atoms = append(r.atoms, a.atoms[i])
+			r.coefs = append(r.coefs, a.coefs[i])
+			i++
+		case i >= len(a.atoms) || b.atoms[j].id < a.atoms[i].id:
+			r.atoms = append(r.atoms, b.atoms[j])
+			r.coefs = append(r.coefs, new(big.Int).Mul(kb, b.coefs[j]))
+			j++
+		default:
+			c := new(big.Int).Add(a.coefs[i], new(big.Int).Mul(kb, b.coefs[j]))
+			if c.Sign() != 0 {
+				r.atoms = append(r.atoms, a.atoms[i])
+				r.coefs = append(r.coefs, c)
+			}
+			i++
+			j++
+		}
+	}
+	return r
+}
+
+// fromLin interns the canonical form; [lo,hi] is an interval known for the value (operand-derived).
+func (s *TermStore) fromLin(l *linT, lo, hi *big.Int) *Term {
+	if len(l.atoms) == 0 {
+		return s.IConst(l.c0)
+	}
+	if len(l.atoms) == 1 && l.c0.Sign() == 0 && l.coefs[0].Cmp(bigOne) == 0 {
+		t := l.atoms[0]
+		s.refine(t, lo, hi)
+		return t
+	}
+	var sb []byte
+	sb = append(sb, 'L')
+	sb = append(sb, l.c0.String()...)
+	for i, a := range l.atoms {
+		sb = append(sb, fmt.Sprintf("|%d*%s", a.id, l.coefs[i].String())...)
+	}
+	k := string(sb)
+	if t, ok := s.tab[k]; ok {
+		s.refine(t, lo, hi)
+		return t
+	}
+	t := &Term{op: OpLin, w: IntW, lin: l, args: l.atoms, lo: lo, hi: hi, umax: ^uint64(0)}
+	t.id = s.next
+	s.next++
+	s.tab[k] = t
+	return t
+}
+
+// linInterval: interval of a linear form from its atoms' intervals.
+func linInterval(l *linT) (*big.Int, *big.Int) {
+	lo, hi := new(big.Int).Set(l.c0), new(big.Int).Set(l.c0)
+	for i, a := range l.atoms {
+		x, y := new(big.Int).Mul(l.coefs[i], a.lo), new(big.Int).Mul(l.coefs[i], a.hi)
+		lo.Add(lo, minBig(x, y))
+		hi.Add(hi, maxBig(x, y))
+	}
+	return lo, hi
+}
+
+// refine intersects a term's recorded interval with a soundly derived one.
+func (s *TermStore) refine(t *Term, lo, hi *big.Int) {
+	if lo != nil && lo.Cmp(t.lo) > 0 {
+		t.lo = lo
+	}
+	if hi != nil && hi.Cmp(t.hi) < 0 {
+		t.hi = hi
+	}
+}
+
 func (s *TermStore) IAdd(a, b *Term) *Term {
 	if a.IsConst() && b.IsConst() {
 		return s.IConst(new(big.Int).Add(a.bk, b.bk))
 	}
-	if a.IsConst() {
-		a, b = b, a
-	}
 	if b.IsConst() && b.bk.Sign() == 0 {
 		return a
 	}
-	// (x + c1) + c2
-	if b.IsConst() && a.op == OpAdd && a.args[1].IsConst() {
-		return s.IAdd(a.args[0], s.IConst(new(big.Int).Add(a.args[1].bk, b.bk)))
+	if a.IsConst() && a.bk.Sign() == 0 {
+		return b
 	}
-	return s.mkI(OpAdd, new(big.Int).Add(a.lo, b.lo), new(big.Int).Add(a.hi, b.hi), a, b)
+	return s.fromLin(linAdd(s.toLin(a), s.toLin(b), bigOne), new(big.Int).Add(a.lo, b.lo), new(big.Int).Add(a.hi, b.hi))
 }
 
 func (s *TermStore) INeg(a *Term) *Term { return s.IMulC(big.NewInt(-1), a) }
@@ -104,7 +193,10 @@ func (s *TermStore) ISub(a, b *Term) *Term {
 	if a == b {
 		return s.IConst(bigZero)
 	}
-	return s.IAdd(a, s.INeg(b))
+	if b.IsConst() && b.bk.Sign() == 0 {
+		return a
+	}
+	return s.fromLin(linAdd(s.toLin(a), s.toLin(b), big.NewInt(-1)), new(big.Int).Sub(a.lo, b.hi), new(big.Int).Sub(a.hi, b.lo))
 }
 
 // IMulC: constant * term
@@ -118,18 +210,12 @@ func (s *TermStore) IMulC(k *big.Int, a *Term) *Term {
 	if k.Cmp(bigOne) == 0 {
 		return a
 	}
-	if a.op == OpMul && a.args[0].IsConst() {
-		return s.IMulC(new(big.Int).Mul(k, a.args[0].bk), a.args[1])
-	}
-	if a.op == OpAdd {
-		// distribute: keeps sums of monomials flat (needed for the product abstraction to meet the spec)
-		return s.IAdd(s.IMulC(k, a.args[0]), s.IMulC(k, a.args[1]))
-	}
 	x, y := new(big.Int).Mul(k, a.lo), new(big.Int).Mul(k, a.hi)
-	return s.mkI(OpMul, minBig(x, y), maxBig(x, y), s.IConst(k), a)
+	return s.fromLin(linAdd(&linT{c0: bigZero}, s.toLin(a), k), minBig(x, y), maxBig(x, y))
 }
 
-// IMul: product; two symbolic factors are abstracted to a bounded variable shared per unordered pair.
+// IMul: product. Linear forms are multiplied out; a product of two atoms is abstracted to one bounded
+// variable per unordered pair (shared between the code under test and the specification).
 func (s *TermStore) IMul(a, b *Term) *Term {
 	if a.IsConst() {
 		return s.IMulC(a.bk, b)
@@ -137,19 +223,37 @@ func (s *TermStore) IMul(a, b *Term) *Term {
 	if b.IsConst() {
 		return s.IMulC(b.bk, a)
 	}
-	// factor out constant multipliers
-	if a.op == OpMul && a.args[0].IsConst() {
-		return s.IMulC(a.args[0].bk, s.IMul(a.args[1], b))
+	la, lb := s.toLin(a), s.toLin(b)
+	if (len(la.atoms)+1)*(len(lb.atoms)+1) > 4096 {
+		panic(unsupported("product of two large linear forms"))
 	}
-	if b.op == OpMul && b.args[0].IsConst() {
-		return s.IMulC(b.args[0].bk, s.IMul(a, b.args[1]))
+	res := s.IConst(new(big.Int).Mul(la.c0, lb.c0))
+	for i, x := range la.atoms {
+		if lb.c0.Sign() != 0 {
+			res = s.IAdd(res, s.IMulC(new(big.Int).Mul(la.coefs[i], lb.c0), x))
+		}
+		for j, y := range lb.atoms {
+			res = s.IAdd(res, s.IMulC(new(big.Int).Mul(la.coefs[i], lb.coefs[j]), s.mono(x, y)))
+		}
 	}
-	if a.op == OpAdd {
-		return s.IAdd(s.IMul(a.args[0], b), s.IMul(a.args[1], b))
+	if la.c0.Sign() != 0 {
+		for j, y := range lb.atoms {
+			res = s.IAdd(res, s.IMulC(new(big.Int).Mul(la.c0, lb.coefs[j]), y))
+		}
 	}
-	if b.op == OpAdd {
-		return s.IAdd(s.IMul(a, b.args[0]), s.IMul(a, b.args[1]))
+	// operand-derived interval of the product
+	c := []*big.Int{new(big.Int).Mul(a.lo, b.lo), new(big.Int).Mul(a.lo, b.hi), new(big.Int).Mul(a.hi, b.lo), new(big.Int).Mul(a.hi, b.hi)}
+	lo, hi := c[0], c[0]
+	for _, v := range c[1:] {
+		lo, hi = minBig(lo, v), maxBig(hi, v)
 	}
+	if !res.IsConst() {
+		s.refine(res, lo, hi)
+	}
+	return res
+}
+
+func (s *TermStore) mono(a, b *Term) *Term {
 	x, y := a, b
 	if x.id > y.id {
 		x, y = y, x
@@ -169,6 +273,7 @@ func (s *TermStore) IMul(a, b *Term) *Term {
 	s.monoSeq++
 	m := s.IVar(fmt.Sprintf("mono!%d", s.monoSeq), lo, hi)
 	s.monos[key] = m
+	s.monoDefs = append(s.monoDefs, [3]*Term{m, a, b})
 	s.abstracted = true
 	return m
 }
@@ -190,11 +295,46 @@ func (s *TermStore) IDivC(x *Term, c *big.Int) *Term {
 	if qlo.Cmp(qhi) == 0 {
 		return s.IConst(qlo)
 	}
-	// exact division of a scaled term: (c*k*y) / c = k*y
-	if x.op == OpMul && x.args[0].IsConst() {
-		k := x.args[0].bk
-		if r := new(big.Int).Mod(k, c); r.Sign() == 0 {
-			return s.IMulC(new(big.Int).Div(k, c), x.args[1])
+	// exact division when every coefficient (and the constant) is a multiple of c
+	if x.op == OpLin {
+		exact := new(big.Int).Mod(x.lin.c0, c).Sign() == 0
+		for _, k := range x.lin.coefs {
+			if new(big.Int).Mod(k, c).Sign() != 0 {
+				exact = false
+				break
+			}
+		}
+		if exact {
+			nl := &linT{c0: new(big.Int).Div(x.lin.c0, c), atoms: x.lin.atoms}
+			for _, k := range x.lin.coefs {
+				nl.coefs = append(nl.coefs, new(big.Int).Div(k, c))
+			}
+			return s.fromLin(nl, qlo, qhi)
+		}
+	}
+	// split x = c*H + L with every coefficient of H*c divisible by c: floor(x/c) = H + floor(L/c)
+	if x.op == OpLin {
+		hi := &linT{c0: new(big.Int)}
+		lo := &linT{c0: new(big.Int)}
+		q0, r0 := new(big.Int).DivMod(x.lin.c0, c, new(big.Int))
+		hi.c0, lo.c0 = q0, r0
+		for i, a := range x.lin.atoms {
+			k := x.lin.coefs[i]
+			if new(big.Int).Mod(k, c).Sign() == 0 {
+				hi.atoms = append(hi.atoms, a)
+				hi.coefs = append(hi.coefs, new(big.Int).Div(k, c))
+			} else {
+				lo.atoms = append(lo.atoms, a)
+				lo.coefs = append(lo.coefs, k)
+			}
+		}
+		if len(hi.atoms) > 0 {
+			// only when the low part is a proper digit (0 <= L < c): exact extraction, no new quotient
+			llo, lhi := linInterval(lo)
+			if llo.Sign() >= 0 && lhi.Cmp(c) < 0 {
+				hlo, hhi := linInterval(hi)
+				return s.fromLin(hi, hlo, hhi)
+			}
 		}
 	}
 	key := fmt.Sprintf("%d/%s", x.id, c.String())
@@ -225,16 +365,9 @@ func (s *TermStore) IModC(x *Term, c *big.Int) *Term {
 	if r.IsConst() {
 		return r
 	}
-	// the remainder's interval is [0, c-1] (cannot be recovered from the operands' intervals)
-	cm1 := new(big.Int).Sub(c, bigOne)
-	nr := *r
-	nt := &nr
-	nt.lo, nt.hi = bigZero, minBig(cm1, maxBig(r.hi, bigZero))
-	if r.hi.Sign() < 0 || r.hi.Cmp(cm1) > 0 {
-		nt.hi = cm1
-	}
-	// keep identity (same id) but with the tightened interval: register as a distinct hash-consed node
-	return s.tighten(r, nt.lo, nt.hi)
+	// the remainder lies in [0, c-1] — a fact that cannot be recovered from the operands' intervals
+	s.refine(r, bigZero, new(big.Int).Sub(c, bigOne))
+	return r
 }
 
 // tighten returns a term equal to t whose recorded interval is [lo,hi] (a fact known to the caller).
@@ -263,6 +396,11 @@ func (s *TermStore) ILt(a, b *Term) *Term {
 	if a.lo.Cmp(b.hi) >= 0 {
 		return s.ff
 	}
+	if a.op == OpLin || b.op == OpLin {
+		if d := s.ISub(a, b); d.IsConst() {
+			return s.Bool(d.bk.Sign() < 0)
+		}
+	}
 	return s.mkRaw(OpSlt, 0, a, b)
 }
 func (s *TermStore) ILe(a, b *Term) *Term { return s.BNot(s.ILt(b, a)) }
@@ -276,6 +414,11 @@ func (s *TermStore) IEq(a, b *Term) *Term {
 	}
 	if a.hi.Cmp(b.lo) < 0 || b.hi.Cmp(a.lo) < 0 {
 		return s.ff
+	}
+	if a.op == OpLin || b.op == OpLin {
+		if d := s.ISub(a, b); d.IsConst() {
+			return s.Bool(d.bk.Sign() == 0)
+		}
 	}
 	return s.mkRaw(OpEq, 0, order(a, b)...)
 }
@@ -323,14 +466,18 @@ func tzKnown(t *Term) int {
 			return 1 << 20
 		}
 		return int(new(big.Int).Abs(t.bk).TrailingZeroBits())
-	case t.op == OpMul && t.args[0].IsConst():
-		return tzKnown(t.args[0]) + tzKnown(t.args[1])
-	case t.op == OpAdd:
-		a, b := tzKnown(t.args[0]), tzKnown(t.args[1])
-		if a < b {
-			return a
+	case t.op == OpLin:
+		m := 1 << 20
+		if t.lin.c0.Sign() != 0 {
+			m = int(new(big.Int).Abs(t.lin.c0).TrailingZeroBits())
 		}
-		return b
+		for i, a := range t.lin.atoms {
+			k := int(new(big.Int).Abs(t.lin.coefs[i]).TrailingZeroBits()) + tzKnown(a)
+			if k < m {
+				m = k
+			}
+		}
+		return m
 	}
 	if t.alias != nil {
 		return tzKnown(t.alias)
